@@ -171,8 +171,11 @@ static int g_bad_first;
 static const char *BAD_FIRST[] = {NULL, "ksi+tcp://other.example.test", "ksi+tcp://other.example.test:0", "file:///verif-nonexistent/x.bin", "gopher://other.example.test/x", "ksi+tcp://", "ksi+tcp://other.example.test:70000"};
 #define NBADFIRST 7
 static int g_bad_first_refused;
-static const char *PRIOR_URI[] = {NULL, "ksi+tcp://prior.example.test:3333", "file:///verif-nonexistent/prior.bin", "http://prior.example.test/p", "ksi://pu:pk@prior.example.test:81/q"};
-#define NPRIOR 5
+static const char *PRIOR_URI[] = {NULL, "ksi+tcp://prior.example.test:3333", "file:///verif-nonexistent/prior.bin", "http://prior.example.test/p", "ksi://pu:pk@prior.example.test:81/q",
+                                  /* the same host as the URI under test, another port (and path) */
+                                  "ksi+tcp://aggr.example.test:4444", "ksi+http://aggr.example.test:4444/other"};
+#define NPRIOR 7
+#define NPRIOR_OTHERHOST 5
 
 static void exec_service(const ccase *c) {
 	KSI_CTX *ctx = NULL;
@@ -831,7 +834,7 @@ static void run(void) {
 	g_prior = 0;
 	{
 		int pr, r, ext;
-		for (pr = 1; pr < NPRIOR; pr++) for (r = 0; r < NREFUSED; r++) for (ext = 0; ext < 2; ext++) {
+		for (pr = 1; pr < NPRIOR_OTHERHOST; pr++) for (r = 0; r < NREFUSED; r++) for (ext = 0; ext < 2; ext++) {
 			if (!vf_case_begin("after-refused:pr%d:r%d:%s", pr, r, ext ? "extender" : "aggregator")) continue;
 			reset_seam();
 			after_refused_case(pr, r, ext);
